@@ -425,3 +425,79 @@ def history_loader_rule(ctx, res, rule: str) -> None:
                 "exist (a removed file, a moved module), so asking for the history after reopening the project raises instead of loading",
                 function=m.qualname)
     res.floor(rule, "data-to-change constructors", n, 5)
+
+
+def history_order_rule(ctx, res, rule: str) -> None:
+    """(shared by C11/C12/C18) The saved history is two lists; the element ORDER is the undo/redo order.  Writer and loader
+    must agree: slot k written from list L in direction d is rebuilt into L so that (iteration direction x insertion end)
+    gives the same order back.  `insert(0, ...)` in a forward loop reverses the list: after a reopen redo() re-applies the
+    oldest undone change first."""
+    from .c10 import _insert_discipline, _iter_discipline
+    idx = ctx.idx
+    hist = idx.need_class("rope.base.history.History")
+    aliases = common.property_aliases(hist)
+
+    def canon(e):
+        if is_self_attr(e):
+            return aliases.get(e.attr, e.attr)
+        return None
+
+    w = hist.methods.get("write")
+    ld = hist.methods.get("_load_history")
+    if w is None or ld is None:
+        raise AnalysisError("anchor=History.write/_load_history missing")
+    # writer: data.append([... for x in <iter over self.L>]) in order; slot index = order of appends
+    written = []
+    for st in walk_local(w.node):
+        if isinstance(st, ast.Expr) and isinstance(st.value, ast.Call) and call_name(st.value) == "append" and st.value.args \
+                and isinstance(st.value.args[0], ast.ListComp) and len(st.value.args[0].generators) == 1:
+            g = st.value.args[0].generators[0]
+            attr = next((canon(x) for x in ast.walk(g.iter) if canon(x)), None)
+            if attr is None:
+                continue
+            raw = next(x for x in ast.walk(g.iter) if canon(x))
+            it = ast.parse(ast.unparse(g.iter).replace(ast.unparse(raw), "L"), mode="eval").body
+            written.append((attr, _iter_discipline(ast.For(target=g.target, iter=it, body=[], orelse=[]), "L"), st))
+    written.sort(key=lambda t: (t[2].lineno, t[2].col_offset))
+    if len(written) < 2:
+        raise AnalysisError("anchor=History.write: the two list comprehensions appended to the saved data not found")
+    # loader: for data in result[k]: self.L.<insert>(...)
+    loaded = []
+    for lp in walk_local(ld.node):
+        if not isinstance(lp, ast.For):
+            continue
+        subs = [x for x in ast.walk(lp.iter) if isinstance(x, ast.Subscript) and isinstance(x.slice, ast.Constant) and isinstance(x.slice.value, int)]
+        if len(subs) != 1:
+            continue
+        k = subs[0].slice.value
+        it = ast.parse(ast.unparse(lp.iter).replace(ast.unparse(subs[0]), "L"), mode="eval").body
+        d = _iter_discipline(ast.For(target=lp.target, iter=it, body=[], orelse=[]), "L")
+        ins = [c for c in calls_in(lp) if isinstance(c.func, ast.Attribute) and c.func.attr in ("append", "insert", "appendleft", "extend") and canon(c.func.value)]
+        if len(ins) != 1:
+            continue
+        loaded.append((k, canon(ins[0].func.value), d, _insert_discipline(ins[0]), lp, ins[0]))
+    if len(loaded) < 2:
+        raise AnalysisError("anchor=History._load_history: the loops that rebuild the two lists from result[k] not found")
+    loaded.sort(key=lambda t: t[4].lineno)
+    n = 0
+    for k, (attr, wd, st) in enumerate(written):
+        mine = [t for t in loaded if t[1] == attr]
+        n += 1
+        if len(mine) != 1:
+            res.add(rule, f"History|saved-order|slot{k}", False, f"{ld.unit.rel}:{ld.node.lineno}",
+                    f"{attr} (slot {k} of the saved history) is rebuilt by {len(mine)} loops of _load_history", function=ld.qualname)
+            continue
+        lk, lattr, d, insd, lp, call = mine[0]
+        if wd is None or d is None or insd is None:
+            res.undecided(rule, f"History|saved-order|slot{k}", f"{ld.unit.rel}:{lp.lineno}", f"iteration/insertion shape not recognised (write {wd}, load {d}/{insd})")
+            continue
+        net_load = "same" if (d, insd) in (("forward", "back"), ("backward", "front")) else "reversed"
+        net = net_load if wd == "forward" else ("reversed" if net_load == "same" else "same")
+        ok = lk == k and net == "same"
+        res.add(rule, f"History|saved-order|slot{k}", ok, f"{ld.unit.rel}:{call.lineno}",
+                f"slot {k}: {attr} is saved {wd} and rebuilt in the same order" if ok else
+                (f"{attr} is written to slot {k} of the saved history but rebuilt from slot {lk}: after close + reopen the undo and redo lists are exchanged" if lk != k else
+                 f"slot {k}: {attr} is saved {wd} but rebuilt with a {d} loop inserting at the {insd}: the list comes back REVERSED, so after "
+                 "close + reopen undo()/redo() take the oldest entry first and no longer restore the state before / after the last change"),
+                function=ld.qualname)
+    res.floor(rule, "saved history slots", n, 2)
